@@ -758,7 +758,7 @@ func writeEvidence(c *core.Ctx, outs []*Outcome, violations, knownHits int) {
 			"known_finding_hits": knownHits, "plans": planInfo, "exhaustive": false,
 			"rule": "TLC checks the C02 action property on every transition of the code-shaped ServiceTrigger model, exhaustively for each listed universe " +
 				"(block numbers 0..3, block times 0..4 in any order, registrations, eon start/DKG result/restart, key releases, keyper restarts; no depth bound). " +
-				"It prints the first history to every distinct state and every history ending in a trigger-emitting block; a seeded sample of them (all of them are candidates) " +
+				"It prints the first history to every distinct state and every history ending in a block transition (emitting a trigger or not; thinned); a seeded sample of them " +
 				"is replayed on the real shutterservice.Keyper + KeyShareHandler + service middleware/handler over the Postgres fake and every observed step is checked by the same monitors in TLC. " +
 				"evaluations = real ops executed; distinct_nontrivial = replayed processNewBlock calls that emitted at least one trigger",
 		},
